@@ -433,10 +433,11 @@ Proof.
   split; [eapply adv_mv1; eauto|split; [cbn; lia|exact I]].
 Qed.
 
-Lemma plaintext_loop_spec z : lx_wf z -> safe (loop (fuel_of z) plaintext_body z) (fun z' => adv z z').
+Lemma plaintext_loop_spec cf z has : cfg_ok cf -> lx_wf z ->
+  safe (loop (fuel_of z) (with_tmpl_lx cf plaintext_body) (z, has)) (fun r => adv z (fst r)).
 Proof.
-  intros Hw.
-  apply (safe_cloop (fun s => s) z (fun _ => True)); [|apply adv_refl, Hw|exact I|apply fuel_enough; reflexivity || lia].
+  intros Hcf Hw. unfold with_tmpl_lx.
+  apply (with_tmpl_cloop cf (fun s : lx => s) (fun _ z' => z') z (fun _ => True) (fun z' => adv z z')); [exact Hcf|exact Hw|reflexivity|tauto| |apply adv_refl, Hw|exact I|apply fuel_enough; reflexivity || lia].
   intros s Ha _. unfold plaintext_body. peek0 s c Hc Hp.
   destruct (eof0 s c) eqn:Ee; cbn [safe]; [exact Ha|].
   split; [eapply adv_mv1; eauto|split; [cbn; lia|exact I]].
@@ -446,7 +447,7 @@ Lemma shift_rawtext_spec c raw z has : cfg_ok c -> lx_wf z ->
   safe (shift_rawtext c raw z has) (fun r => shifted z (fst (fst r)) (snd (fst r))).
 Proof.
   intros Hc Hw. unfold shift_rawtext. destruct (raw =? html_hash_Plaintext).
-  - eapply safe_bind; [apply plaintext_loop_spec, Hw|]. cbn beta. intros z' Hz'.
+  - eapply safe_bind; [apply plaintext_loop_spec; assumption|]. cbn beta. intros [z' hz] Hz'. cbn [fst snd] in *.
     eapply safe_bind; [apply (shiftv_adv z); assumption|]. cbn beta. intros r Hr. cbn. exact Hr.
   - eapply safe_bind; [apply rawtext_loop_spec; assumption|]. cbn beta. intros s Hs.
     eapply safe_bind; [apply (shiftv_adv z); assumption|]. cbn beta. intros r Hr. cbn. exact Hr.
